@@ -1692,21 +1692,47 @@ fn grav_layout() -> impl Strategy<Value = GravLayout> {
 
 /// rows, cols in 2..=max; spacing and origin on a decimal lattice so that the extent is a whole
 /// number of cells; angular grids inside lat [-90, 90], lon [-180, 360]; linear (projected) grids
-/// with eastings of 1e5..9e5 (so that at least one bound exceeds 720).
+/// with every mixture of bounds inside/outside [-720, 720] (at least one outside).
 fn grav_spec(max_side: usize) -> impl Strategy<Value = GravSpec> {
     (
-        (2usize..=max_side, 2usize..=max_side, 1usize..=3, prop::bool::weighted(0.3)),
+        (2usize..=max_side, 2usize..=max_side, 1usize..=3, prop::bool::weighted(0.45)),
         (1u32..=5000, 1u32..=5000, any::<u16>(), any::<u16>()),
         prop::collection::vec((-2_000_000i32..2_000_000, 0u8..3), 1..=12),
         any::<u64>(),
+        (0u8..6, 0u8..6),
     )
-        .prop_map(|((rows, cols, bands, projected), (ka, kb, oa, ob), seedvals, mix)| {
+        .prop_map(|((rows, cols, bands, projected), (ka, kb, oa, ob), seedvals, mix, (cat_a, cat_b))| {
             let (dlat, dlon, lat_s, lon_w);
             if projected {
-                dlat = ka as f64 * 0.25; // 0.25 .. 1250 m
-                dlon = kb as f64 * 0.25;
-                lat_s = (oa as f64 * 150.0).floor(); // northing 0 .. 9.8e6
-                lon_w = 100_000.0 + (ob as f64 * 12.0).floor(); // easting 1e5 .. 8.9e5
+                // Linear (projected) grids: every mixture of bounds inside / outside [-720, 720].
+                // Per axis: 0 both beyond +720; 1 low bound inside (incl. 0 and negative), high beyond;
+                // 2 both inside; 3 low below -720, high inside; 4 both below -720; 5 low below -720,
+                // high beyond +720. Both axes inside would be an angular grid by the documented rule,
+                // so that combination is mapped to (2, 0). All numbers are multiples of 0.25: exact.
+                let (cat_a, cat_b) = if cat_a == 2 && cat_b == 2 { (2, 0) } else { (cat_a, cat_b) };
+                let axis = |cat: u8, n: usize, k: u32, o: u16| -> (f64, f64) {
+                    let cells = (n - 1) as f64;
+                    let d = k as f64 * 0.25; // 0.25 .. 1250
+                    let small = if o % 7 == 0 { 0.0 } else { (o % 1441) as f64 - 720.0 }; // in [-720, 720]
+                    let wide = d + (1500.0 / cells).ceil(); // extent >= 1500
+                    match cat {
+                        0 => (1000.0 + (o as f64 * 150.0).floor(), d),
+                        1 => (small, wide),
+                        2 => {
+                            let dd = d.min(((1400.0 / cells) / 0.25).floor() * 0.25).max(0.25);
+                            let ext = cells * dd;
+                            (-720.0 + ((o as f64 / 65536.0) * (1440.0 - ext)).floor(), dd)
+                        }
+                        3 => (small - cells * wide, wide),
+                        4 => (-(100_000.0 + (o as f64 * 12.0).floor()) - cells * d, d),
+                        _ => {
+                            let lo = -(721.0 + (o % 5000) as f64);
+                            (lo, d + ((lo.abs() + 800.0) / cells).ceil())
+                        }
+                    }
+                };
+                (lat_s, dlat) = axis(cat_a, rows, ka, oa);
+                (lon_w, dlon) = axis(cat_b, cols, kb, ob);
             } else {
                 dlat = ka as f64 / 1000.0;
                 dlon = kb as f64 / 1000.0;
@@ -2238,7 +2264,7 @@ fn main() {
     let side = if thorough { 20 } else { 12 };
     run.section(
         "gravsoft-roundtrip",
-        "random grids (2..12 rows/cols, 1-3 bands, angular and linear units) rendered in random layouts (comments, blank lines, CRLF, tabs, header split over lines, one row/node/value per line, 8 number spellings, either sign of dlat/dlon, with/without final newline); non-trivial = every node value and all four edges verified; distinct by text",
+        "random grids (2..12 rows/cols, 1-3 bands; angular, and linear/projected with 0, 1, 2 or 3 of the four bounds within +-720 on either axis, incl. 0 and negative bounds) rendered in random layouts (comments, blank lines, CRLF, tabs, header split over lines, one row/node/value per line, 8 number spellings, either sign of dlat/dlon, with/without final newline); non-trivial = every node value and all four edges verified; distinct by text",
         n,
         move || grav_case(side),
         |c: &GravCase, rec: &mut Rec| {
@@ -2246,6 +2272,20 @@ fn main() {
             match check_grav_decode(c.text.as_bytes(), &c.spec) {
                 Ok(s) => {
                     rec.class(&format!("bands{}-{}", c.spec.bands, if c.spec.angular() { "angular" } else { "linear" }));
+                    if !c.spec.angular() {
+                        let b = [c.spec.lat_s.0, c.spec.lat_n.0, c.spec.lon_w.0, c.spec.lon_e.0];
+                        let inside = b.iter().filter(|h| h.abs() <= 720.).count();
+                        rec.class(&format!("linear-{inside}-of-4-bounds-within-720-bands{}", c.spec.bands));
+                        if b.iter().any(|h| *h == 0.0) {
+                            rec.class("linear-with-zero-bound");
+                        }
+                        if b.iter().any(|h| *h < 0.0) {
+                            rec.class("linear-with-negative-bound");
+                        }
+                        let lat_in = b[..2].iter().filter(|h| h.abs() <= 720.).count();
+                        let lon_in = b[2..].iter().filter(|h| h.abs() <= 720.).count();
+                        rec.class(&format!("linear-inside-lat{lat_in}-lon{lon_in}"));
+                    }
                     if c.text.contains('\r') {
                         rec.class("layout-crlf");
                     }
